@@ -44,7 +44,7 @@ ASSUMPTIONS = [
     "run_ode/j_from_ode are trusted here (decided by C10)",
     "numba, numpy, scipy are trusted",
 ]
-FAULT_KINDS = ["cancel_in_model_phase", "x:nan_or_inf", "x:destabilising", "model:diverging",
+FAULT_KINDS = ["cancel_in_model_phase", "model:raises", "x:nan_or_inf", "x:destabilising", "model:diverging",
                "model:nan_after", "illegal:set_model_unsupported",
                "illegal:get_differentials_unsupported", "short_circuit_1e200"]
 PROBES = ["short_circuit_after_recorded_case", "model_eval_between_raw_evals",
@@ -87,7 +87,11 @@ def _bundled_dim(b: list) -> int:
 
 
 MODELS = ["lin:1", "lin:2", "lin:3", "div", "nan_after:0.5", "nan_after:0.0",
-          "njit_lin", "real"]
+          "njit_lin", "real", "raise_after:0.3"]
+
+
+class _ModelFailure(Exception):
+    """Raised by a model that breaks down in the middle of a simulation."""
 
 
 def plan(tier: str) -> list:
@@ -320,13 +324,18 @@ def _make_model(mid: str, sd: int, cd: int, real_eq):
                 out[i] = 5.0 * float(state[i]) + 1.0
         return div
     rnd = random.Random(1000 + (int(arg) if kind == "lin" else 7))
+    if kind == "raise_after":
+        rnd = random.Random(1001)
     M = [[round(rnd.uniform(-0.6, 0.3), 3) for _ in range(sd + cd)]
          for _ in range(sd)]
     for i in range(sd):
         M[i][i] = -abs(M[i][i]) - 0.1
     tt = float(arg) if kind == "nan_after" else math.inf
+    t_raise = float(arg) if kind == "raise_after" else math.inf
 
     def lin(state, t, control, out):
+        if t > t_raise:
+            raise _ModelFailure(f"model broke down at t={t}")
         for i in range(sd):
             acc = 0.0
             row = M[i]
@@ -531,8 +540,11 @@ def _execute(doc: dict) -> dict:
             fresh = cls(finst, supports)
             if mode == "model":
                 fresh.set_model(model_of(model_id, freal))
+            fresh_failure = False
             try:
                 v_fresh = fresh.evaluate(x.copy())
+            except _ModelFailure:
+                v_fresh, fresh_failure = None, True
             except Exception as exc:  # noqa: BLE001
                 core.violation(res, "evaluate-raised",
                                f"op {idx}: a fresh objective raised "
@@ -549,9 +561,33 @@ def _execute(doc: dict) -> dict:
             # ---- the object under test
             try:
                 v = obj.evaluate(x)
+            except _ModelFailure:
+                # the model itself broke down: the exception must pass
+                # through, a fresh objective must have failed as well, and
+                # nothing may stick (checked by the ledger and by whatever
+                # the history does next)
+                res["events"].append(["evaluate", mode, xk, "model-failure"])
+                core.bump(res["faults"], "model:raises")
+                if not fresh_failure:
+                    core.violation(
+                        res, "differs-from-fresh-objective",
+                        f"op {idx}: the model's exception surfaced on the "
+                        f"used objective only", mode=mode)
+                    break
+                evals += 1
+                if not check_ledger(f"{kind} (op {idx})"):
+                    break
+                prev_op = kind
+                continue
             except Exception as exc:  # noqa: BLE001
                 core.violation(res, "evaluate-raised",
                                f"op {idx}: {type(exc).__name__}: {exc}")
+                break
+            if fresh_failure:
+                core.violation(
+                    res, "differs-from-fresh-objective",
+                    f"op {idx}: a fresh objective propagates the model's "
+                    f"exception, the used one returned {v!r}", mode=mode)
                 break
             res["ops"] += 1
             evals += 1
